@@ -294,3 +294,118 @@ def position_product():
         for pos in POSITIONS:
             for scope in SCOPES:
                 yield stmt, pos, scope
+
+
+# ---------------------------------------------------------------- (E) include graphs x RESOLVER KIND
+# Module identity: the interpreter's recursion guard (and Model/EvalInclude.v) identify a module by the INCLUDE
+# STRING AS WRITTEN.  Under the file resolver several strings designate one file ("m1", "m1.vcl", "sub/m2",
+# "m2" through the include path sub/): each spelling is its own module of the model, with the file's content.
+# The same graphs are rendered for the in-memory resolver (VCL.Name = include string), for a stub resolver
+# whose VCL.Name differs from the include string, and as files on disk for resolver.NewFileResolvers.
+
+def spellings(fname):
+    base = fname.split("/")[-1]
+    out = [fname, fname + ".vcl"]
+    if "/" in fname:
+        out += [base, base + ".vcl"]
+    return out
+
+
+def gen_spelled_includes(rng, stats, kind=None):
+    n = rng.randint(1, 5)
+    kind = kind or rng.choice(["acyclic", "acyclic", "self", "mutual", "random", "diamond"])
+    stats["spelled-" + kind] = stats.get("spelled-" + kind, 0) + 1
+    files = ["sub/m%d" % i if rng.random() < 0.3 else "m%d" % i for i in range(n)]
+    targets = []
+    for i in range(n):
+        if kind == "acyclic":
+            ts = [j for j in range(i + 1, n) if rng.random() < 0.5]
+        elif kind == "diamond":
+            ts = [j for j in range(i + 1, n)][:2] * (2 if rng.random() < 0.5 else 1)
+        elif kind == "self":
+            ts = [j for j in range(i + 1, n) if rng.random() < 0.4] + ([i] if (i == n - 1 or rng.random() < 0.3) else [])
+        elif kind == "mutual":
+            ts = [(i + 1) % n]
+        else:
+            ts = [rng.randrange(n + 1) for _ in range(rng.randint(0, 2))]      # n = a file that does not exist
+        targets.append(ts)
+    tag = [0]
+
+    def items(ts):
+        out = []
+        for t in ts:
+            if rng.random() < 0.5:
+                tag[0] += 1
+                out.append(("s", tag[0]))
+            fname = files[t] if t < n else "nofile"
+            out.append(("i", rng.choice(spellings(fname))))
+        if rng.random() < 0.5:
+            tag[0] += 1
+            out.append(("s", tag[0]))
+        return out
+
+    bodies = {files[i]: items(targets[i]) for i in range(n)}
+    top = items([0] + ([rng.randrange(n)] if rng.random() < 0.4 else []))
+    return files, bodies, top, rng.random() < 0.4, rng.random() < 0.25
+
+
+def _spelling_file(files, sp):
+    for f in files:
+        if sp in spellings(f):
+            return f
+    return None
+
+
+def spelled_model(files, bodies, top):
+    """the model's modules are the spellings in use; content = the designated file's items"""
+    used = []
+
+    def visit(items):
+        for k, v in items:
+            if k == "i" and v not in used:
+                used.append(v)
+                f = _spelling_file(files, v)
+                if f is not None:
+                    visit(bodies[f])
+    visit(top)
+    idx = {sp: i for i, sp in enumerate(used)}
+    missing = len(used)                    # a module number without a body: "not found"
+
+    def it(items):
+        return ",".join(("i%d" % (idx[v] if _spelling_file(files, v) is not None else missing)) if k == "i" else "s%d" % v for k, v in items) or "-"
+    mods = []
+    for sp in used:
+        f = _spelling_file(files, sp)
+        mods.append(it(bodies[f]) if f is not None else None)
+    # spellings of files that do not exist must resolve to "module not found": give them an out-of-range number
+    text = "|".join(m if m is not None else "i%d" % (10 ** 6) for m in mods) or "."
+    return "inc %s %s" % (text, it(top))
+
+
+def spelled_render(files, bodies, top, root_level, nested, resolver):
+    """-> module list for simrun with the resolver kind prefix"""
+    def render(items, in_sub):
+        out = ""
+        for k, v in items:
+            if k == "i":
+                out += 'include "%s";\n' % v
+            elif in_sub:
+                out += 'log "%d";\n' % v
+        return out
+    if root_level:
+        main = BACKEND + VCL_ERROR + render(top, False) + "sub vcl_recv { error 601; }\n"
+    elif nested:
+        main = BACKEND + VCL_ERROR + "sub vcl_recv {\nif (!req.http.Nope) {\n" + render(top, True) + "}\nerror 601;\n}\n"
+    else:
+        main = BACKEND + VCL_ERROR + "sub vcl_recv {\n" + render(top, True) + "error 601;\n}\n"
+    mods = [("main", main)]
+    if resolver == "file":
+        mods += [(f, render(bodies[f], not root_level)) for f in files]
+    else:
+        seen = set()
+        for f in files:
+            for sp in spellings(f):
+                if sp not in seen:
+                    seen.add(sp)
+                    mods.append((sp, render(bodies[f], not root_level)))
+    return resolver + ":" + ",".join("%s=%s" % (n, c.encode().hex()) for n, c in mods)
